@@ -814,3 +814,8 @@ package types
 //@   ensures r == blockHeightOf(b)
 //@ trusted func (b *Block) LastCommit() (r *Commit)
 //@   ensures r == lastCommitOf(b)
+
+// The hash of a piece of evidence is a function of the evidence object.
+//@ spec func evHashOf(e Evidence) common.Hash
+//@ trusted func (e Evidence) Hash() (r common.Hash)
+//@   ensures r == evHashOf(e)
